@@ -55,7 +55,16 @@ def plan(tier, seed):
         for cks in ([], [['AiAgent', 'c.txt', True]], [['Human', 'c.txt', False]], [['AiAgent', 'c.txt', True], ['Human', 'p.txt', False]], [['AiTab', 'q.txt', True]]):
             for cf in ([], ['c.txt'], ['c.txt', 'p.txt']):
                 out.append(('post_commit_scope', {'initial': init, 'checkpoints': cks, 'commit_files': cf}))
+    # commit --amend: (kind, file, author of the entry's line attribution or None)
+    for cks in ([], [['AiAgent', 'c.txt', 's1']], [['Human', 'p.txt', 's1']], [['Human', 'p.txt', 'human']], [['Human', 'p.txt', None]],
+                [['AiAgent', 'c.txt', 's1'], ['Human', 'p.txt', 's1']], [['Human', 'p.txt', 's1'], ['AiTab', 'q.txt', 's2']], [['Human', 'c.txt', 's1'], ['Human', 'p.txt', 's2']]):
+        for cf in ([], ['c.txt'], ['c.txt', 'z.txt']):
+            out.append(('amend_scope', {'checkpoints': cks, 'commit_files': cf}))
     return out
+
+
+class AmendLoaded(Exception):
+    pass
 
 
 def install(M):
@@ -70,6 +79,39 @@ def install(M):
         return ok(tup(clone_val(P, P.state['unstaged_hunks']), clone_val(P, P.state['pure_hunks'])))
     M.env[VA + '::collect_committed_hunks'] = committed
     M.env[VA + '::collect_unstaged_hunks'] = unstaged
+
+    # the amend path hands its file list to an async loader: the list is what the obligation looks at
+    def block_on(P, c, args, dt):
+        if not P.state.get('c04_amend'):
+            raise Unsupported('smol::block_on outside the amend-scope obligation')
+        found = []
+
+        def walk(v, depth=0):
+            if depth > 4 or v is None:
+                return
+            if isinstance(v, VecV):
+                try:
+                    found.append([bytes(concrete_bytes(as_bytes(e))).decode() for e in v.e])
+                except Exception:
+                    pass
+                return
+            if isinstance(v, Ref):
+                try:
+                    walk(tgt(v), depth + 1)
+                except Exception:
+                    pass
+                return
+            for f in getattr(v, 'f', None) or []:
+                walk(f, depth + 1)
+        walk(args[0])
+        P.events.append(('amend_pathspecs', found))
+        raise AmendLoaded()
+    M.env['smol::block_on'] = block_on
+
+    def no_note(P, c, args, dt):
+        return err(Opaque('GitAiError', 'No authorship note found'))
+    if 'git::refs::get_reference_as_authorship_log_v3' not in M.env:
+        M.env['git::refs::get_reference_as_authorship_log_v3'] = no_note
 
 
 def compress(M, nums):
@@ -342,13 +384,72 @@ def ob_post_commit_scope(h, shape):
     h.sample = h.witness()
 
 
-OBLIGATIONS = {'split_batch': ob_split_batch, 'split': run_split, 'post_commit_scope': ob_post_commit_scope}
+def ob_amend_scope(h, shape):
+    """which files `commit --amend` re-examines: every file for which the working log of the amended commit names an
+    AI line (in an entry of ANY checkpoint kind - the pre-commit checkpoint that carries INITIAL forward is a Human one)
+    and every file the amended commit touches must be loaded; the old working log is deleted afterwards, so a file
+    left out silently loses its pending attribution"""
+    from harness import c03
+    P = h.P
+    M = P.M
+    CKPT, WLE, KIND, STATS = c03.CKPT, c03.WLE, c03.KIND, c03.STATS
+    wl = c03.mk_wl(M)
+    P.state['wl'] = wl
+    P.state['fs'] = {'/wl': 'DIR'}
+    P.state['commit_files'] = shape['commit_files']
+    P.state['c04_amend'] = True
+    stats = Agg(STATS, [Sc(0, 32) for _ in M.src.struct_fields(STATS)])
+    cks = []
+    pending = []
+    for i, (kind, f, who) in enumerate(shape['checkpoints']):
+        la = [mk_struct(M, LATTR, start_line=Sc(1, 32), end_line=Sc(1, 32), author_id=pystring(who), overrode=none())] if who else []
+        entry = mk_struct(M, WLE, file=pystring(f), blob_sha=pystring('b%d' % i), attributions=VecV([]), line_attributions=VecV(la))
+        cks.append(mk_struct(M, CKPT, kind=mk_enum(M, KIND, kind), diff=pystring('d'), author=pystring('x'), entries=VecV([entry]),
+                             timestamp=Sc(i, 64), transcript=none(), agent_id=none(), agent_metadata=none(), line_stats=stats,
+                             api_version=pystring('checkpoint/1.0.0'), git_ai_version=none()))
+        if who and who != 'human':
+            pending.append(f)
+    v = VecV(cks)
+    r = P.call_named(c03.PWL + '::write_all_checkpoints', [Ref(Cell(wl)), SliceRef(v, 0, len(cks))])
+    if r.var != 'Ok':
+        raise Unsupported('seeding checkpoints failed')
+    h.inputs_struct = {'checkpoints': shape['checkpoints'], 'commit_files': shape['commit_files']}
+    repo = Agg('git::repository::Repository', [])
+    try:
+        P.call_named('authorship::rebase_authorship::rewrite_authorship_after_commit_amend', [Ref(Cell(repo)), pystr('orig'), pystr('amended'), pystring('Human')])
+    except AmendLoaded:
+        pass
+    except Panic as e:
+        h.panic('C04-amend-no-panic', e.msg)
+        return
+    ps = [e[1] for e in P.events if e[0] == 'amend_pathspecs']
+    h.require(len(ps) == 1 and len(ps[0]) >= 1, 'C04-amend-reaches-the-loader', 'the amend step did not hand a file list to the loader')
+    if len(ps) != 1 or not ps[0]:
+        return
+    got = set()
+    for lst in ps[0]:
+        got |= set(lst)
+    missing = sorted((set(pending) | set(shape['commit_files'])) - got)
+    h.require(not missing, 'C04-amend-every-pending-file-is-re-examined',
+              'files %r carry pending AI attribution in the working log (or are part of the amended commit) but are not among the files the amend step loads %r' % (missing, sorted(got)))
+    h.sample = h.witness()
+
+
+OBLIGATIONS = {'split_batch': ob_split_batch, 'split': run_split, 'post_commit_scope': ob_post_commit_scope, 'amend_scope': ob_amend_scope}
 
 
 # ---------------------------------------------------------------------------
 # native replay on a real repository
 
 def replay(v, native):
+    if v['obligation'].startswith('C04-amend-'):
+        r = native('c04_amend_scope', v['inputs'])
+        if 'panic' in r:
+            return {'reproduced': v['kind'] == 'panic', 'native': r}
+        if v['kind'] == 'panic':
+            return {'reproduced': False, 'native': r}
+        bad = {'C04-amend-every-pending-file-is-re-examined': bool(r.get('lost')), 'C04-amend-reaches-the-loader': not r.get('ok')}
+        return {'reproduced': bool(bad.get(v['obligation'])), 'native': r}
     if 'commit_files' in v['inputs']:
         r = native('c04_post_commit_scope', v['inputs'])
         if 'panic' in r:
